@@ -137,6 +137,8 @@ func (ex *Exec) effectsOf(fr *Frame, blocks map[*ssa.BasicBlock]bool) *loopEffec
 			fn = v
 		case *ssa.MakeClosure:
 			fn = v.Fn.(*ssa.Function)
+		case *ssa.UnOp:
+			fn = singleStoredFunc(v.X)
 		}
 		if fn == nil {
 			if top := fr.topFrame(); top.con != nil && curSite != nil {
@@ -246,8 +248,25 @@ func (ex *Exec) enterLoop(fr *Frame, h *ssa.BasicBlock, in *State) *State {
 		for _, cl := range spec.Invariants {
 			ex.oblige(fr, in, fmt.Sprintf("loop%d.inv.init", ord), cl.Label, env.evalBool(cl.Text), h.Instrs[0].Pos(), cl.Text)
 		}
+		for _, cl := range spec.EntryEnsures {
+			ex.oblige(fr, in, fmt.Sprintf("loop%d.entry", ord), cl.Label, env.evalBool(cl.Text), h.Instrs[0].Pos(), cl.Text)
+		}
 	}
 	st := in.clone()
+	for b := range fr.li.body[h] {
+		for _, instr := range b.Instrs {
+			if nx, ok := instr.(*ssa.Next); ok && nx.IsString {
+				rng := nx.Iter.(*ssa.Range)
+				if _, have := st.iters[rng]; have {
+					p := Fresh("l.rangepos", SInt)
+					st.iters[rng] = p
+					if s, ok := fr.regs[rng].(*Term); ok {
+						ex.fact(nil, And(Ge(p, IntT(0)), Le(p, ex.slen(s))))
+					}
+				}
+			}
+		}
+	}
 	ef := ex.effectsOf(fr, fr.li.body[h])
 	for a := range ef.cells {
 		if _, ok := st.cells[a]; ok {
@@ -349,6 +368,35 @@ func typeParamMap(fn *ssa.Function) map[*types.TypeParam]types.Type {
 			}
 			return m
 		}
+	}
+	return nil
+}
+
+
+// singleStoredFunc: the function stored in a local variable that is assigned exactly once
+// (`isDigit := func(...) {...}`), or nil.
+func singleStoredFunc(addr ssa.Value) *ssa.Function {
+	a, ok := addr.(*ssa.Alloc)
+	if !ok || a.Referrers() == nil {
+		return nil
+	}
+	var fn *ssa.Function
+	n := 0
+	for _, r := range *a.Referrers() {
+		if st, ok := r.(*ssa.Store); ok && st.Addr == addr {
+			n++
+			switch v := st.Val.(type) {
+			case *ssa.Function:
+				fn = v
+			case *ssa.MakeClosure:
+				fn = v.Fn.(*ssa.Function)
+			default:
+				return nil
+			}
+		}
+	}
+	if n == 1 {
+		return fn
 	}
 	return nil
 }
